@@ -338,6 +338,17 @@ def call_by_contract(it, c, fn, bound):
     caller = it.current_fn[-1].__qualname__ if it.current_fn else '<top>'
     tag = f'{caller}/call:{fn.__qualname__}'
     ns = dict(bound)
+    # vacuity guard: every call instance (callee, call site, decisions taken before it) must have
+    # at least one outcome -- a havoc alternative that survives the callee's postconditions, or an
+    # exceptional exit -- unless the caller's own state is contradictory there
+    cid = None
+    if not ctx.nofork:
+        import hashlib
+        cid = hashlib.sha1(repr((c.qualname, where, ctx.script[:ctx.pos])).encode()).hexdigest()[:12]
+        it.used.add(f'<call-begin> {cid} {c.qualname} @ {where}')
+        if not hasattr(it, 'calls_passed'):
+            it.calls_passed = []
+        it.calls_passed.append(cid)
     # class invariant of the receiver is part of the precondition
     cc = it.registry.class_contract_of(c)
     for name, rfn in c.requires:
